@@ -115,6 +115,9 @@ func (m *StringifiedMessage) encode(d *Decoder, sb *strings.Builder, tagType byt
 		if err != nil {
 			return err
 		}
+		if aryLen < 0 {
+			return errNegativeLength
+		}
 		first := true
 		sb.WriteString("[B;")
 		for i := int32(0); i < aryLen; i++ {
@@ -135,6 +138,9 @@ func (m *StringifiedMessage) encode(d *Decoder, sb *strings.Builder, tagType byt
 		if err != nil {
 			return err
 		}
+		if aryLen < 0 {
+			return errNegativeLength
+		}
 		sb.WriteString("[I;")
 		first := true
 		for i := 0; i < int(aryLen); i++ {
@@ -154,6 +160,9 @@ func (m *StringifiedMessage) encode(d *Decoder, sb *strings.Builder, tagType byt
 		aryLen, err := d.readInt32()
 		if err != nil {
 			return err
+		}
+		if aryLen < 0 {
+			return errNegativeLength
 		}
 		first := true
 		sb.WriteString("[L;")
@@ -178,6 +187,9 @@ func (m *StringifiedMessage) encode(d *Decoder, sb *strings.Builder, tagType byt
 		listLen, err := d.readInt32()
 		if err != nil {
 			return err
+		}
+		if listLen < 0 {
+			return errNegativeLength
 		}
 		first := true
 		sb.WriteString("[")
